@@ -658,7 +658,7 @@ func replayText(i int, v *vec, sum *hx.Summary, evw *hx.Writer) bool {
 		if v.Ill != "" && !v.Odd && !timedOut && o.Panic == "" && o.Err == nil {
 			k := "zone/hostile:ill-formed-accepted:" + v.Ill
 			if f := strings.Fields(string(text)); len(f) > 4 && (f[2] == "IN" || f[2] == "CH") { // a record of the zoo: one class per RR type
-				k += ":" + f[3]
+				k += ":" + strings.Trim(f[3], "()\"\\;")
 			}
 			sum.Mis(k, fmt.Sprintf("%q is lexically ill-formed (%s) and the parser reported no error after %d records", string(text), v.Ill, o.NRecs), cs)
 		}
